@@ -150,6 +150,30 @@ def object_level(case, ctx):
         ctx.check(pk2 == pk, "calc_peak not invariant to sign reversal: %r vs %r" % (pk2, pk))
     # second read is idempotent
     ctx.check(asig.pga == pga and asig.pgv == pgv and asig.pgd == pgd, "peak values changed on re-read")
+    # the series and peaks describe the record the object holds NOW: repeat after an in-place edit handed back through
+    # reset_values (the idiom the library's own baseline corrections use) and after such a correction
+    if np.asarray(asig.values).dtype.kind == "f" and n >= 3 and np.any(a):
+        m = ctx.lib(eqsig.AccSignal, np.array(a, dtype=float), dt)
+        _ = (m.velocity, m.displacement, m.pga, m.pgv, m.pgd)
+        vals = m.values
+        vals[n // 2] += 0.5 * (np.max(np.abs(a)) or 1.0)
+        ctx.lib(m.reset_values, vals)
+        for step in ("edit + reset_values", "set_zero_residual_velocity"):
+            if step == "set_zero_residual_velocity":
+                try:
+                    m.set_zero_residual_velocity()
+                except Exception:  # noqa  (which records a correction accepts is not C08's business)
+                    break
+            cur = np.array(m.values, dtype=float)
+            if not np.all(np.isfinite(cur)):
+                break
+            v6, d6 = disp_mod.calc_velo_and_disp_from_accel_arr(cur, dt, trap=True)
+            ctx.equal(m.velocity, v6, "AccSignal.velocity vs array level after %s" % step)
+            ctx.equal(m.displacement, d6, "AccSignal.displacement vs array level after %s" % step)
+            ctx.check(m.pga == np.max(np.abs(cur)) and m.pgv == np.max(np.abs(v6)) and m.pgd == np.max(np.abs(d6)),
+                      "peaks %r after %s do not match the current record (%r)" % (
+                          (m.pga, m.pgv, m.pgd), step, (np.max(np.abs(cur)), np.max(np.abs(v6)), np.max(np.abs(d6)))))
+        ctx.cls("after-edit")
     # sign flip and power-of-two scaling are exact
     k = case.get("k2", 3)
     flip = ctx.lib(eqsig.AccSignal, -a, dt)
